@@ -3,6 +3,7 @@ use crate::engine::*;
 
 pub mod c01;
 pub mod c01_rules;
+pub mod c02;
 pub mod c06;
 mod c06_sql;
 mod c06_vals;
@@ -16,5 +17,5 @@ pub mod selftest;
 pub mod sqlcase;
 
 pub fn all() -> Vec<PropDef> {
-    vec![selftest::def(), c01::def(), c06::def(), c11::def(), c18::def(), c19::def(), c20::def()]
+    vec![selftest::def(), c01::def(), c02::def(), c06::def(), c11::def(), c18::def(), c19::def(), c20::def()]
 }
